@@ -70,6 +70,9 @@ inductive Stmt
   | brk
   | cont
   | expr (e : Expr)
+  | hcallS (lhs : List String) (f : String) (args : List Expr) (params : List String) (body : List Stmt)
+      -- `[lhs :=] f(args…, func(params){body})` as a STATEMENT whose function literal assigns to variables it captures:
+      -- the literal runs in the caller's environment and what it assigns there stays assigned (capture by reference)
   | unsupported (what : String)
 end
 
@@ -149,11 +152,17 @@ def binOp (op : String) (a b : Val) : Option Val :=
 /-- a function literal passed to a primitive: the primitive may run it (any number of times) on the world -/
 abbrev Handler (σ : Type) := List Val → σ → Option (Val × σ)
 
+/-- a function literal that may assign to captured variables: it is run in (and returns) the environment of its definition -/
+abbrev HandlerE (σ : Type) := List Val → List (String × Val) → σ → Option (Val × List (String × Val) × σ)
+
 /-- the interpretation of everything a program calls but does not define: `fn name args world`;
     `hfn` for the primitives that take a function literal (`GetSingletonOrCreateByFactory(name, func…)`) -/
 structure Prims (σ : Type) where
   fn : String → List Val → σ → Option (Val × σ)
   hfn : String → List Val → Handler σ → σ → Option (Val × σ) := fun _ _ _ _ => none
+  /-- the same for literals that assign to captured variables (statement form `hcallS`): the primitive threads the
+      environment through the calls of the literal -/
+  hfnE : String → List Val → HandlerE σ → List (String × Val) → σ → Option (Val × List (String × Val) × σ) := fun _ _ _ _ _ => none
   /-- how many iterations a three-clause `for` may make before the interpretation gives up (`none`); theorems about such
       loops hold for EVERY fuel above the number of iterations the loop needs -/
   fuel : Nat := 0
@@ -364,6 +373,23 @@ def evalS {σ : Type} (P : Prims σ) (env : Env) (w : σ) : Stmt → Option (Env
   | .brk => some (env, w, .brk)
   | .cont => some (env, w, .cont)
   | .expr e => (evalE P env w e).map (fun (_, w') => (env, w', .norm))
+  | .hcallS lhs f args params body =>
+    match evalEs P env w args with
+    | some (vs, w1) =>
+      match P.hfnE f vs (fun as env' w'' =>
+          if params.length = as.length then
+            match evalB P ((params.zip as) ++ env') w'' body with
+            | some (e2, w3, .ret v) => some (v, Env.leave e2 env'.length, w3)
+            | some (e2, w3, .norm) => some (.tuple [], Env.leave e2 env'.length, w3)
+            | _ => none
+          else none) env w1 with
+      | some (v, env2, w2) =>
+        if lhs.isEmpty then some (env2, w2, .norm)
+        else match bindVals lhs v with
+          | some bs => some (bs.foldl (fun e (x, v) => Env.def e x v) env2, w2, .norm)
+          | none => none
+      | none => none
+    | none => none
   | .unsupported _ => none
 def evalB {σ : Type} (P : Prims σ) (env : Env) (w : σ) : List Stmt → Option (Env × σ × Ctl)
   | [] => some (env, w, .norm)
